@@ -828,6 +828,8 @@ class ComposerText(ComposerBase):
         self.compose_string(value)
 
     def compose_date_time(self, value, fmt):
+        if value.tzinfo is not None:
+            value = value.astimezone(dateutil.tz.UTC)
         self.compose_string(value.strftime(fmt))
 
     def compose_time_delta(self, value):
